@@ -1,5 +1,6 @@
 import OW.Kernels.Climate
 import OW.Proofs.RealNum
+import OW.Proofs.Climate
 import Mathlib.Tactic.Linarith
 import Mathlib.Tactic.Positivity
 import Mathlib.Tactic.NormNum
@@ -19,7 +20,7 @@ transcendental constants, margin ≈ 5·10⁻⁵ in log₁₀), convergence of t
 in IEEE arithmetic (ℝ has no non-finite values; finiteness is checked by the oracle on the real code).
 -/
 namespace OW.Props.C20
-open OW OW.Kernels.Climate
+open OW OW.Kernels.Climate OW.Proofs.Climate
 
 /-! ### the bisection bracket -/
 
@@ -80,8 +81,6 @@ theorem deltaT_def (pa t rh : ℝ) : (sample pa t rh).deltaT = t - (sample pa t 
 
 /-! ### vapour pressure -/
 
-theorem ten_pos : (0:ℝ) < (@OfNat.ofNat ℝ 10 _) := by norm_num
-
 /-- **vp_pos.** Saturation vapour pressure is positive at every temperature (both Goff-Gratch branches). -/
 theorem vp_pos (t : ℝ) : 0 < vaporPressure t := by
   unfold vaporPressure
@@ -89,6 +88,71 @@ theorem vp_pos (t : ℝ) : 0 < vaporPressure t := by
   split_ifs <;>
   · apply mul_pos (by norm_num)
     exact Real.rpow_pos_of_pos (by norm_num) _
+
+/-- **vp_strictMono_ice.** Below freezing (the `else` branch: T ≤ 0) the Goff-Gratch vapour pressure over ice is strictly
+increasing in temperature, on the whole branch down to absolute zero of the formula (⊇ [−40, 0]). -/
+theorem vp_strictMono_ice (t1 t2 : ℝ) (h0 : -273.16 < t1) (h12 : t1 < t2) (h2 : t2 ≤ 0) :
+    vaporPressure t1 < vaporPressure t2 := by
+  rw [vp_ice t1 (by linarith), vp_ice t2 (by linarith)]
+  have ha1 : 0 < t1 + 273.16 := by linarith
+  have ha2 : 0 < t2 + 273.16 := by linarith
+  have hz2 : 1 ≤ 273.16 / (t2 + 273.16) := by rw [le_div_iff₀ ha2]; linarith
+  have hz : 273.16 / (t2 + 273.16) < 273.16 / (t1 + 273.16) :=
+    div_lt_div_of_pos_left (by norm_num) ha1 (by linarith)
+  have := expIce_strictAnti hz2 hz
+  have hp : (10:ℝ) ^ expIce (273.16 / (t1 + 273.16)) < (10:ℝ) ^ expIce (273.16 / (t2 + 273.16)) :=
+    Real.rpow_lt_rpow_of_exponent_lt (by norm_num) this
+  linarith
+
+/-- **vp_strictMono_water.** Above freezing (the `if temperature > 0` branch) the Goff-Gratch vapour pressure over water is
+strictly increasing in temperature up to the boiling point (⊇ (0, 55]). -/
+theorem vp_strictMono_water (t1 t2 : ℝ) (h0 : 0 < t1) (h12 : t1 < t2) (h2 : t2 ≤ 100) :
+    vaporPressure t1 < vaporPressure t2 := by
+  rw [vp_water t1 h0, vp_water t2 (by linarith)]
+  have ha1 : 0 < t1 + 273.16 := by linarith
+  have ha2 : 0 < t2 + 273.16 := by linarith
+  have hz2 : 1 ≤ 373.16 / (t2 + 273.16) := by rw [le_div_iff₀ ha2]; linarith
+  have hz : 373.16 / (t2 + 273.16) < 373.16 / (t1 + 273.16) :=
+    div_lt_div_of_pos_left (by norm_num) ha1 (by linarith)
+  have := expWater_strictAnti hz2 hz
+  have hp : (10:ℝ) ^ expWater (373.16 / (t1 + 273.16)) < (10:ℝ) ^ expWater (373.16 / (t2 + 273.16)) :=
+    Real.rpow_lt_rpow_of_exponent_lt (by norm_num) this
+  linarith
+
+/-! ### dew point -/
+
+/-- `calcDewPoint` for a positive humidity, in closed form -/
+theorem dewPoint_eq (t rh : ℝ) (hrh : 0 < rh) :
+    dewPoint t rh = 237.3 * Real.log (vaporPressure t * rh / 100 / 0.6108) /
+      (17.27 - Real.log (vaporPressure t * rh / 100 / 0.6108)) := by
+  unfold dewPoint
+  simp only [zero_lit, ofNat_lit 100]
+  have h1 : ¬ rh ≤ 0 := not_le.mpr hrh
+  have h2 : 0 < vaporPressure t * rh / 100 := by
+    have := vp_pos t
+    positivity
+  rw [if_neg h1, if_pos h2]
+  rfl
+
+/-- **dewpoint_mono_humidity.** At a fixed temperature the dew point is strictly increasing in relative humidity, as long as
+the Magnus denominator `17.27 − ln(ea/0.6108)` stays positive at the larger humidity (i.e. `ea < 0.6108·e^17.27 ≈ 1.9·10⁷ kPa`,
+true for every meteorological input: `ea ≤ vp(55 °C) ≈ 15.7 kPa`). -/
+theorem dewpoint_mono_humidity (t rh1 rh2 : ℝ) (h1 : 0 < rh1) (h12 : rh1 < rh2)
+    (hden : Real.log (vaporPressure t * rh2 / 100 / 0.6108) < 17.27) :
+    dewPoint t rh1 < dewPoint t rh2 := by
+  rw [dewPoint_eq t rh1 h1, dewPoint_eq t rh2 (by linarith)]
+  have hv := vp_pos t
+  have e1 : 0 < vaporPressure t * rh1 / 100 / 0.6108 := by positivity
+  have e12 : vaporPressure t * rh1 / 100 / 0.6108 < vaporPressure t * rh2 / 100 / 0.6108 := by
+    apply div_lt_div_of_pos_right _ (by norm_num)
+    apply div_lt_div_of_pos_right _ (by norm_num)
+    exact mul_lt_mul_of_pos_left h12 hv
+  have hF : Real.log (vaporPressure t * rh1 / 100 / 0.6108) < Real.log (vaporPressure t * rh2 / 100 / 0.6108) :=
+    Real.log_lt_log e1 e12
+  generalize Real.log (vaporPressure t * rh1 / 100 / 0.6108) = F1 at hF ⊢
+  generalize Real.log (vaporPressure t * rh2 / 100 / 0.6108) = F2 at hF hden ⊢
+  rw [div_lt_div_iff₀ (by linarith) (by linarith)]
+  nlinarith
 
 /-! ### non-vacuity -/
 
@@ -99,5 +163,26 @@ example : bisect (fun x : ℝ => x) 3 2 0 8 = 2 := by
   norm_num
 
 example : 0 < vaporPressure (20 : ℝ) := vp_pos 20
+example : vaporPressure (-40 : ℝ) < vaporPressure (0 : ℝ) := vp_strictMono_ice (-40) 0 (by norm_num) (by norm_num) (le_refl _)
+example : vaporPressure (1 : ℝ) < vaporPressure (55 : ℝ) := vp_strictMono_water 1 55 (by norm_num) (by norm_num) (by norm_num)
+
+/-- at 0 °C the ice branch gives exactly 101.325 × 0.0060273 kPa, so at 50 % and 100 % humidity `ea/0.6108 < 1` and the
+hypothesis of `dewpoint_mono_humidity` holds -/
+example : dewPoint (0:ℝ) 50 < dewPoint (0:ℝ) 100 := by
+  apply dewpoint_mono_humidity 0 50 100 (by norm_num) (by norm_num)
+  have hvp : vaporPressure (0:ℝ) = 101.325 * 0.0060273 := by
+    rw [vp_ice 0 (lt_irrefl _)]
+    unfold expIce
+    have z : (273.16:ℝ) / (0 + 273.16) = 1 := by norm_num
+    rw [z]
+    have : (-9.09718:ℝ) * (1 - 1) + -3.56654 * Real.logb 10 1 + 0.876793 * (1 - 1 / 1) + Real.logb 10 0.0060273
+        = Real.logb 10 0.0060273 := by
+      rw [Real.logb_one]; norm_num
+    rw [this, Real.rpow_logb (by norm_num) (by norm_num) (by norm_num)]
+  rw [hvp]
+  have : Real.log (101.325 * 0.0060273 * 100 / 100 / 0.6108) < 0 := by
+    apply Real.log_neg (by norm_num) (by norm_num)
+  linarith
 
 end OW.Props.C20
+
